@@ -652,7 +652,20 @@ async fn run_op(sh: &Shared, client: usize, op: Op) {
         let id = pool[ctx::choose(pool.len())].clone();
         let own_pk = sh.bbs_publics.borrow().get(&id).cloned();
         let arg_id = if other_public && pool.len() > 1 { pool.iter().find(|o| **o != id).cloned().unwrap() } else { id.clone() };
-        let arg_pk = sh.bbs_publics.borrow().get(&arg_id).cloned();
+        let mut arg_pk = sh.bbs_publics.borrow().get(&arg_id).cloned();
+        // one call in four passes the key's public JWK with the OTHER BBS+ ciphersuite as `alg`: the key was generated
+        // for BLS12381-SHA256, a signature for this key id must verify under the key's own public JWK (or be refused)
+        let mut other_suite = false;
+        if ctx::choose(4) == 0 {
+          if let Some(pk) = &arg_pk {
+            let mut j = serde_json::to_value(pk).unwrap_or_default();
+            j["alg"] = jsonprooftoken::jpa::algs::ProofAlgorithm::BLS12381_SHAKE256.to_string().into();
+            if let Ok(changed) = serde_json::from_value::<Jwk>(j) {
+              arg_pk = Some(changed);
+              other_suite = true;
+            }
+          }
+        }
         match (own_pk, arg_pk) {
           (Some(own_pk), Some(arg_pk)) => {
             arg = format!("{id} with the public key of {arg_id}");
@@ -666,7 +679,13 @@ async fn run_op(sh: &Shared, client: usize, op: Op) {
                   ctx::violation(
                     "C15",
                     "C15.signature_verifies_under_own_key",
-                    if arg_id == id { "sign_bbs/does-not-verify" } else { "sign_bbs/other-public-key-passed/does-not-verify-under-own-key" },
+                    if other_suite {
+                      "sign_bbs/other-ciphersuite-named/does-not-verify-under-own-key"
+                    } else if arg_id == id {
+                      "sign_bbs/does-not-verify"
+                    } else {
+                      "sign_bbs/other-public-key-passed/does-not-verify-under-own-key"
+                    },
                     format!("the BBS+ signature returned for key id {id} (public key argument: that of {arg_id}) does not verify under the public JWK of {id}"),
                   );
                 }
